@@ -156,6 +156,13 @@ fn same_structure(src: &RV, got: &RV, float_ref: &dyn Fn(&str) -> Option<f64>, w
     }
 }
 
+fn show_opt(v: &Option<Value>) -> String {
+    match v {
+        Some(v) => v.to_string(),
+        None => "an error".to_string(),
+    }
+}
+
 pub fn check_value(rv: &RV, t: &mut Tally) {
     let v = bridge::to_value(rv);
     let case = || json!({"kind": "value", "value": rv.show()});
@@ -186,6 +193,41 @@ pub fn check_value(rv: &RV, t: &mut Tally) {
             t.violation(class, format!("serializing {} with the crate's serializer fails: {e}", rv.show()), case());
         }
         Err(p) => t.violation("", format!("serializing {} panicked: {p}", rv.show()), case()),
+    }
+    // (a') Object's own Serialize / Deserialize impls must agree with Value's on an object
+    // (coherence; includes duplicate-carrying objects, whatever Value's impl does with them)
+    if let Value::Object(obj) = &v {
+        t.evals += 1;
+        let text = v.compact_print().to_string();
+        let r = explore::guard(|| {
+            let mut bad: Vec<String> = Vec::new();
+            let as_value = from_value::<Value>(v.clone()).ok();
+            let as_object = from_value::<json_syntax::Object>(v.clone()).ok().map(Value::Object);
+            if as_value != as_object {
+                bad.push(format!("from_value::<Object> gives {}, from_value::<Value> gives {}", show_opt(&as_object), show_opt(&as_value)));
+            }
+            let ser_value = to_value(&v).ok();
+            let ser_object = to_value(obj).ok();
+            if ser_value != ser_object {
+                bad.push(format!("to_value(&object) gives {}, to_value(&Value::Object(object)) gives {}", show_opt(&ser_object), show_opt(&ser_value)));
+            }
+            let text_value = serde_json::from_str::<Value>(&text).ok();
+            let text_object = serde_json::from_str::<json_syntax::Object>(&text).ok().map(Value::Object);
+            if text_value != text_object {
+                bad.push(format!("serde_json::from_str::<Object>({text}) gives {}, ::<Value> gives {}", show_opt(&text_object), show_opt(&text_value)));
+            }
+            bad
+        });
+        match r {
+            Ok(bad) if bad.is_empty() => t.outcome("Object's impls agree with Value's"),
+            Ok(bad) => {
+                for b in bad {
+                    // (with the reserved token as a first key it is Value's impl that misreads: D11)
+                    t.violation(if d11 { "D11" } else { "" }, format!("Object's serde impl disagrees with Value's on {}: {b}", rv.show()), case());
+                }
+            }
+            Err(p) => t.violation("", format!("Object's serde impls panicked on {}: {p}", rv.show()), case()),
+        }
     }
     if has_dup {
         return;
